@@ -97,11 +97,14 @@ SCENARIOS['S5d'] = {
     'prefix': ['x0', 'x1'],
     'alphabet': ['dA', 'n0', 'dB', 't', 't', 't'],
 }
+# S2 / S7 with DEBUG logging of the library turned on
+for _k in ('S2', 'S7'):
+    SCENARIOS[_k + 'g'] = dict(SCENARIOS[_k], debug_logging=True, phase2=False)
 # S2 with the Data packets arriving inside link-layer envelopes
 SCENARIOS['S2w'] = dict(SCENARIOS['S2'], packets={k: (dict(v, lp=True) if 'data' in v else v) for k, v in SCENARIOS['S2']['packets'].items()})
 
-LEN = {'quick': {'S1': 5, 'S2': 5, 'S3': 5, 'S3b': 5, 'S4': 5, 'S5': 5, 'S7': 5, 'S1p': 4, 'S4p': 4, 'S7p': 4, 'S2w': 4, 'S1m': 4, 'S7m': 4, 'S5d': 4},
-       'thorough': {'S1': 6, 'S2': 6, 'S3': 6, 'S3b': 6, 'S4': 6, 'S5': 6, 'S7': 6, 'S1p': 5, 'S4p': 5, 'S7p': 5, 'S2w': 5, 'S1m': 5, 'S7m': 5, 'S5d': 5}}
+LEN = {'quick': {'S1': 5, 'S2': 5, 'S3': 5, 'S3b': 5, 'S4': 5, 'S5': 5, 'S7': 5, 'S1p': 4, 'S4p': 4, 'S7p': 4, 'S2w': 4, 'S1m': 4, 'S7m': 4, 'S5d': 4, 'S2g': 3, 'S7g': 3},
+       'thorough': {'S1': 6, 'S2': 6, 'S3': 6, 'S3b': 6, 'S4': 6, 'S5': 6, 'S7': 6, 'S1p': 5, 'S4p': 5, 'S7p': 5, 'S2w': 5, 'S1m': 5, 'S7m': 5, 'S5d': 5, 'S2g': 4, 'S7g': 4}}
 DEV = {'quick': 1, 'thorough': 2}
 
 
@@ -219,10 +222,18 @@ class PitScenario:
         self.shared_param = enc.InterestParam()
 
     def close(self):
+        if getattr(self, 'dbg', None) is not None:
+            self.dbg.__exit__(None, None, None)
         self.env.__exit__(None, None, None)
 
     def setup(self):
         self.env.__enter__()
+        self.dbg = None
+        if self.b.spec.get('debug_logging'):
+            # the application has DEBUG logging of the library on: every log line is formatted
+            from mc.ndnenv import debug_logging
+            self.dbg = debug_logging()
+            self.dbg.__enter__()
         self.face = HFace(self.trace)
         self.app = self.fe.make_app(self.face)
         self.main = self.loop.create_task(self.app.main_loop())
